@@ -88,6 +88,16 @@ class C12(Property):
             dict(w(3, 10, [["set", 1, 900, 10], ["set", 2, 901, 10], ["set", 3, 900, 20], ["set", 4, 4, 20], ["set", 5, 5, 40]]
                    + T * 2 + [["release", 901]] + T * 2 + [["release", 900], ["drain"]]), hold=[900, 901]),
         ]
+        # a callback re-arms its own key / removes another / drains from inside; Stop with callbacks running
+        cs += [
+            dict(w(4, 10, [["set", 1, 700, 10], ["set", 2, 900, 10], ["set", 3, 5, 30], ["tick"], ["tick"], ["set", 4, 702, 10],
+                           ["tick"], ["release", 900], ["drain"]]), hold=[900],
+                 react={"700": ["set", 1, 701, 20], "701": ["remove", 2], "702": ["drain"]}),
+            dict(w(3, 10, [["set", 1, 900, 10], ["set", 2, 6, 10], ["set", 3, 7, 20], ["tick"], ["stop"], ["tick"], ["set", 4, 1, 10],
+                           ["release", 900], ["drain"]], "fake"), hold=[900]),
+            dict(w(3, 10, [["set", 1, 900, 10], ["set", 2, 901, 20], ["set", 3, 8, 20], ["tick"], ["drain"], ["release", 901],
+                           ["release", 900]]), hold=[900, 901]),
+        ]
         for (n, i, e) in [(0, 10, True), (-3, 10, True), (4, 0, True), (4, -1, True), (4, 1000000, False),
                           (4, 1000000, True), (1, 1, True), (0, 0, False)]:
             cs.append({"kind": "new", "n": n, "interval": i, "exec": e})
@@ -198,47 +208,77 @@ class C12(Property):
         return {"kind": "wheel", "n": ns, "interval": interval, "ticker": rng.choice(["rv", "rv", "fake"]),
                 "skeys": rng.random() < 0.3, "ops": ops}
 
-    def _gen_gated(self, rng):
-        """execute callbacks held open by the controller across further ticks; several timers due per tick"""
+    def _gen_gated(self, rng, react=None):
+        """execute callbacks held open by the controller across further ticks; several timers due per tick;
+        callbacks that call back into the wheel (re-arm their own key, move / remove another, drain); Stop and Drain
+        while callbacks are still running"""
         ns = rng.choice([1, 2, 3, 4, 5, 8])
         interval = rng.choice([1, 10, 1000])
         nkeys = rng.randint(3, 8)
-        hold = rng.sample([900, 901, 902, 903, 904], rng.randint(1, 3))
+        hold = rng.sample([900, 901, 902, 903, 904], rng.randint(1, 4))
+        free_hold = list(hold)          # every held value is carried by at most one timer: one batch per release
+        if react is None:
+            react = rng.random() < 0.5
+        rc = {}
+        if react:
+            for v in rng.sample([700, 701, 702, 703, 704], rng.randint(1, 4)):
+                k = rng.randrange(nkeys)
+                d = rng.choice([1, 1, 2, 3, ns, ns + 1]) * interval
+                kind = rng.choice(["set", "set", "set", "move", "remove", "drain"])
+                nv = rng.choice([rng.randrange(600), rng.randrange(600), 700, 701, 702])   # may re-arm a calling value
+                rc[str(v)] = {"set": ["set", k, nv, d], "move": ["move", k, d], "remove": ["remove", k], "drain": ["drain"]}[kind]
         nops = rng.randint(15, 70)
+        stop_at = rng.randint(nops // 2, nops) if rng.random() < 0.15 else None
         ops = []
+
+        def value():
+            r = rng.random()
+            if r < 0.3 and free_hold:
+                return free_hold.pop()
+            if r < 0.55 and rc:
+                return int(rng.choice(list(rc)))
+            if r < 0.6:
+                return rng.choice([999, 1999])
+            return rng.randrange(600)
+
         while len(ops) < nops:
+            if stop_at is not None and len(ops) >= stop_at:
+                ops.append(["stop"])
+                stop_at = None
+                nops = min(nops, len(ops) + rng.randint(1, 5))
+                continue
             r = rng.random()
             k = rng.randrange(nkeys)
             steps = rng.choice([1, 1, 1, 2, 2, 3, ns, ns + 1, 2 * ns + 1])
             d = steps * interval
-            if r < 0.08:          # a burst: several timers due at the same tick, some of them held
+            if r < 0.08:          # a burst: several timers due at the same tick
                 for j in range(rng.randint(2, 5)):
-                    v = rng.choice(hold) if rng.random() < 0.4 else rng.randrange(800)
-                    ops.append(["set", (k + j) % nkeys, v, d])
+                    ops.append(["set", (k + j) % nkeys, value(), d])
             elif r < 0.40:
-                v = rng.choice(hold) if rng.random() < 0.3 else rng.randrange(800)
-                if rng.random() < 0.1:
-                    v = 999 if rng.random() < 0.5 else 1999
-                ops.append(["set", k, v, d])
+                ops.append(["set", k, value(), d])
             elif r < 0.50:
                 ops.append(["move", k, d])
             elif r < 0.55:
                 ops.append(["remove", k])
             elif r < 0.63:
                 ops.append(["release", rng.choice(hold)])
-            elif r < 0.65:
+            elif r < 0.67:
                 ops.append(["drain"])
             else:
                 ops.append(["tick"])
-        ops += T * rng.randint(0, 2 * ns + 2)
+        if not any(o[0] == "stop" for o in ops):
+            ops += T * rng.randint(0, 2 * ns + 2)
         rel = list(hold)
         rng.shuffle(rel)
         ops += [["release", v] for v in rel]
-        return {"kind": "wheel", "n": ns, "interval": interval, "ticker": rng.choice(["rv", "fake"]), "hold": hold, "ops": ops}
+        c = {"kind": "wheel", "n": ns, "interval": interval, "ticker": rng.choice(["rv", "fake"]), "hold": hold, "ops": ops}
+        if rc:
+            c["react"] = rc
+        return c
 
     def _gen_two(self, rng):
         """two wheels living side by side (nothing of one may show on the other), operations interleaved"""
-        a, b = self._gen_gated(rng), self._gen_gated(rng)
+        a, b = self._gen_gated(rng, react=False), self._gen_gated(rng, react=False)
         b["hold"] = a["hold"]
         # the closing releases of b refer to a's hold set now
         b["ops"] = [o for o in b["ops"] if o[0] != "release"] + [["release", v] for v in a["hold"]]
@@ -484,6 +524,13 @@ class C12(Property):
                             ob.append((st.get("x") or [], 0))
                     parts.append(self._wheel_term(n, iv, case.get("hold") or [], ops, ob, True))
                 return "CBoth (%s) (%s)" % (parts[0], parts[1])
+            if case.get("react"):
+                rc = clist(["(%s, %s)" % (cz(int(v)), self._aop(o)) for v, o in sorted(case["react"].items())])
+                opt = clist(["GRelease %s" % cz(o[1]) if o[0] == "release" else "GCall (%s)" % self._aop(o) for o in case["ops"]])
+                obt = clist(["(%s, %s, %s)" % (self._fired(st["f"]), RES[st["r"]], clist([self._aop(e) for e in (st.get("e") or [])]))
+                             for st in steps])
+                return "CReact %s %s %s %s %s %s" % (cz(case["n"]), cz(case["interval"]),
+                                                     clist([cz(v) for v in case.get("hold") or []]), rc, opt, obt)
             gated = bool(case.get("hold")) or any(o[0] == "release" for o in case["ops"])
             return self._wheel_term(case["n"], case["interval"], case.get("hold") or [], case["ops"],
                                     [(st["f"], st["r"]) for st in steps], gated)
@@ -580,6 +627,12 @@ class C12(Property):
                 fs.append("has_ErrClosed")
             if any(v % 1000 == 999 for s in obs["obs"] for _, v in s["f"]):
                 fs.append("callback_panicked")
+            if case.get("react"):
+                fs.append("callbacks_call_back")
+                if any(e[0] == "drain" for st in obs["obs"] for e in (st.get("e") or [])):
+                    fs.append("drain_from_callback")
+            if case.get("hold") and any(o[0] == "stop" for o in flat):
+                fs.append("stop_with_callbacks_running")
             if case.get("hold"):
                 fs.append("gated")
                 if any(o[0] == "release" and s["f"] for o, s in zip(case["ops"], obs["obs"])):
